@@ -151,3 +151,21 @@ M("c11-skip-f3-always", "C11", EXF, "        if linear_coeffs[2] != 0.0:", "    
 M("c11-order-shift", "C11", EXF, "            sigma.orders[(o[0], o[1] + self.alpha_qed_power(), o[2], o[3])] = v", "            sigma.orders[(o[0], o[1] + self.alpha_qed_power(), o[3], o[2])] = v", expect="C11.combo")
 M("c11-xs-raw", "C11", "xs.py", "return self.runner.get_sf(obs_name).get_esf(obs_name, kin, use_raw=False)", "return self.runner.get_sf(obs_name).get_esf(obs_name, kin, use_raw=True)", expect="C11.combo")
 B("c11-hoist-prop", "C11", EXF, "        norm *= 1.0 / (2.0 * x * (1.0 + Q2 / params[\"M2W\"]) ** 2)", "        prop = (1.0 + Q2 / params[\"M2W\"]) ** 2\n        norm = norm / (2.0 * x * prop)")
+
+# ----------------------------------------------------------------------------- C10
+TMF = "esf/tmc.py"
+M("c10-rho-power", "C10", TMF, "        self._factor_shifted = self.x**2 / (self.xi**2 * self.rho**3)\n        # h2 comes with a seperate factor\n        self._factor_h2 = 6.0", "        self._factor_shifted = self.x**2 / (self.xi**2 * self.rho**2)\n        # h2 comes with a seperate factor\n        self._factor_h2 = 6.0", expect="ESFTMC_F2")
+M("c10-h2-coeff", "C10", TMF, "self._factor_h2 = 6.0 * self.mu * self.x**3 / (self.rho**4)", "self._factor_h2 = 4.0 * self.mu * self.x**3 / (self.rho**4)", expect="ESFTMC_F2")
+M("c10-swap-kernels", "C10", TMF, '        return self._convolve_FX("F2", g2_ker)', '        return self._convolve_FX("F2", h2_ker)', expect="exact")
+M("c10-k2-over-f2", "C10", TMF, '        return self._convolve_FX("g1", k2_ker)', '        return self._convolve_FX("F2", k2_ker)', expect="ESFTMC_g1")
+M("c10-h3-revert", "C10", TMF, '        return self._convolve_FX("F3", h2_ker)', '        return self._convolve_FX("F3", h3_ker)', expect="ESFTMC_F3")
+M("c10-k1-revert", "C10", TMF, '        return self._convolve_FX("g1", h2_ker)', '        return self._h2()', expect="ESFTMC_g1")
+M("c10-xi-def", "C10", TMF, "        self.xi = 2 * self.x / (1 + self.rho)", "        self.xi = 2 * self.x / (1 + self.rho**2)", expect="C10.vars")
+M("c10-h2-kernel-body", "C10", TMF, "    xi = args[0]\n    return 1 / xi * z", "    xi = args[0]\n    return 1 / xi * z * z", expect="C10.form")
+M("c10-fl-approx", "C10", TMF, "            (4 * self.mu * self.x * self.xi) / self.rho * (1 - self.xi)\n", "            (4 * self.mu * self.x * self.xi) / self.rho * (1 - self.xi) ** 2\n", expect="ESFTMC_FL")
+M("c10-mode-dispatch", "C10", TMF, "        elif self.sf.runner.configs.TMC == 2:  # approx\n            out = self._get_result_approx()", "        elif self.sf.runner.configs.TMC == 2:  # approx\n            out = self._get_result_exact()", expect="approx")
+M("c10-restore-x", "C10", TMF, "        out.x = self.x\n", "        out.x = self.xi\n", expect=None)
+M("c10-tmc-map-g1", "C10", TMF, 'ESFTMCmap = {"F2": ESFTMC_F2, "FL": ESFTMC_FL, "F3": ESFTMC_F3, "g1": ESFTMC_g1}', 'ESFTMCmap = {"F2": ESFTMC_F2, "FL": ESFTMC_FL, "F3": ESFTMC_F3}', expect="rejected")
+M("c10-g1-2xi-revert", "C10", TMF, "    def _get_result_exact(self):\n        # Collect g1 result.\n        g1out = self.sf.get_esf(self.sf.obs_name, self._shifted_kinematics).get_result()\n\n        # Call to the raw integrals\n        k1out = self._k1()\n        k2out = self._k2()\n\n        # Combine the expressions and putting back `2x`\n        return (\n            2\n            * self.x", "    def _get_result_exact(self):\n        # Collect g1 result.\n        g1out = self.sf.get_esf(self.sf.obs_name, self._shifted_kinematics).get_result()\n\n        # Call to the raw integrals\n        k1out = self._k1()\n        k2out = self._k2()\n\n        # Combine the expressions and putting back `2x`\n        return (\n            2\n            * self.xi", expect="ESFTMC_g1")
+B("c10-ratio-squared", "C10", TMF, "        self._factor_shifted = self.x**2 / (self.xi**2 * self.rho**3)\n        # h2 comes with a seperate factor\n        self._factor_h2 = 6.0", "        self._factor_shifted = (self.x / self.xi) ** 2 / self.rho**3\n        # h2 comes with a seperate factor\n        self._factor_h2 = 6.0")
+B("c10-kernel-spelling", "C10", TMF, "    xi = args[0]\n    return 1 / xi * z", "    return z / args[0]")
